@@ -1,19 +1,42 @@
 """One shard of one check, run as its own OS process:  python -m vf.shard <prop> <tier> <seed> <shard> <nshards> <collect> <budget_s> <outfile>"""
 import json
+import os
 import sys
+import threading
+import time
+
+
+def _write(out, res):
+    tmp = out + ".tmp"
+    with open(tmp, "w") as fh:
+        json.dump(res, fh, default=str)
+    os.replace(tmp, out)
+
+
+def _watchdog(out):
+    """a case stuck inside z3's C code cannot be interrupted by SIGALRM: after HANG_TIMEOUT_S the shard reports what it
+    has explored so far (the stuck case is inconclusive) and exits"""
+    from . import runner
+
+    while True:
+        time.sleep(5)
+        ctx = runner.CURRENT_CTX
+        if ctx is not None and ctx.case_t0 is not None and time.time() - ctx.case_t0 > runner.HANG_TIMEOUT_S:
+            ctx.counters["case_stuck_in_native_code_shard_stopped"] += 1
+            ctx.inconclusive += 1
+            try:
+                _write(out, ("ok", ctx.summary()))
+            finally:
+                os._exit(0)
 
 
 def main(argv):
     prop, tier, seed, shard, nshards, collect, budget_s, out = argv
     from . import runner
 
+    threading.Thread(target=_watchdog, args=(out,), daemon=True).start()
     res = runner._worker((prop, tier, int(seed), int(shard), int(nshards), collect == "1", float(budget_s)))
-    tmp = out + ".tmp"
-    with open(tmp, "w") as fh:
-        json.dump(res, fh, default=str)
-    import os
-
-    os.replace(tmp, out)
+    _write(out, res)
     return 0
 
 
